@@ -10,7 +10,11 @@ import (
 	"hzcheck/esp"
 )
 
-func init() { register("C06", c06Reparent, c06Params, c06Payload) }
+func init() {
+	register("C06", c06Reparent, c06Params, c06Payload,
+		// the chain stored at a route is what dispatch runs: the chain builder rules of C12
+		c12Const, c12Assembly)
+}
 
 // childFields returns the fields of the route-tree node that hold child nodes (type *node or
 // a slice of *node), excluding the back pointer.
